@@ -67,47 +67,95 @@ Proof.
   - replace (M - 0 * v) with (1 * M) by lia. apply Z_mod_mult.
 Qed.
 
+(** one iteration from a state with a <> 0: no check fails, the next state is explicit *)
+Lemma inv_step_shape a b x y : inv_inv (a, b, x, y) -> a <> 0 ->
+  inv_step (a, b, x, y) = inl (b mod a, a, y, x - b / a * y) /\
+  inv_inv (b mod a, a, y, x - b / a * y) /\ 0 <= b mod a < a /\ 2 * (b mod a) < b.
+Proof.
+  intros (Hab & HbM & Hsum & Hsign & Hx & Hca & Hcb & Hg) Ha0.
+  unfold inv_step. destruct (a =? 0) eqn:E0; [apply Z.eqb_eq in E0; contradiction|].
+  assert (Hapos : 0 < a) by lia.
+  pose proof (Z.div_mod b a Ha0) as Hdm. pose proof (Z.mod_pos_bound b a Hapos) as Hmod.
+  assert (Hk : 0 <= b / a) by (apply Z.div_pos; lia).
+  assert (Hk1 : 1 <= b / a) by (apply Z.div_le_lower_bound; lia).
+  unfold div_s. rewrite E0. rewrite Z.quot_div_nonneg by lia.
+  set (k := b / a) in *.
+  assert (Hr : b mod a = b - k * a) by lia. rewrite Hr.
+  assert (Hka : k * a <= b) by lia.
+  assert (Hka1 : 1 * a <= k * a) by (apply Z.mul_le_mono_nonneg_r; lia).
+  pose proof (abs_sub_opp x y k Hsign Hk) as Habs.
+  pose proof (sign_step x y k Hsign Hk) as G4.
+  destruct (step_arith a b (Z.abs x) (Z.abs y) k M Hapos ltac:(lia) Hk Hka
+              (Z.abs_nonneg x) (Z.abs_nonneg y) Hsum)
+    as (A1 & A2 & A3 & A4 & A5 & A6 & A7 & A8).
+  assert (Habsky : Z.abs (k * y) <= M) by (rewrite Z.abs_mul, (Z.abs_eq k) by lia; lia).
+  assert (Hkann : 0 <= k * a) by (apply Z.mul_nonneg_nonneg; lia).
+  unfold bind.
+  rewrite (chk_s32_some k) by lia.
+  rewrite (chk_s32_some (k * a)) by lia.
+  rewrite (chk_s32_some (b - k * a)) by lia.
+  rewrite (chk_s32_some (k * y)) by lia.
+  rewrite (chk_s32_some (x - k * y)) by lia.
+  split; [reflexivity|]. split; [|lia].
+  cbn [inv_inv].
+  assert (G5 : (b - k * a - (x - k * y) * v) mod M = 0).
+  { replace (b - k * a - (x - k * y) * v) with ((b - x * v) - k * (a - y * v)) by ring.
+    rewrite Zminus_mod, Zmult_mod, Hca, Hcb, Z.mul_0_r. reflexivity. }
+  assert (G7 : Z.gcd (b - k * a) a = Z.gcd v M).
+  { rewrite <- Hg. rewrite Z.gcd_comm.
+    replace (b - k * a) with (b + (- k) * a) by ring. apply Z.gcd_add_mult_diag_r. }
+  rewrite Habs.
+  repeat split; try assumption; try lia.
+Qed.
+
+Lemma inv_step_exit b x y : inv_inv (0, b, x, y) ->
+  inv_step (0, b, x, y) = inr (Some x) /\ inv_post (Some x).
+Proof.
+  intros (Hab & HbM & Hsum & Hsign & Hx & Hca & Hcb & Hg). split; [reflexivity|].
+  exists x. split; [reflexivity|]. split; [exact Hx|].
+  rewrite Z.gcd_0_l, Z.abs_eq in Hg by lia. rewrite <- Hg.
+  apply Zmod_divides in Hcb; [|lia]. destruct Hcb as [c Hc].
+  replace (x * v) with (b + (- c) * M) by lia. apply Z_mod_plus_full.
+Qed.
+
 Lemma inv_step_ok s : inv_inv s ->
   match inv_step s with
   | inl s' => inv_inv s' /\ 0 <= inv_mu s' < inv_mu s
   | inr r => inv_post r
   end.
 Proof.
-  destruct s as [[[a b] x] y]. intros (Hab & HbM & Hsum & Hsign & Hx & Hca & Hcb & Hg).
-  unfold inv_step. destruct (a =? 0) eqn:E0.
-  - apply Z.eqb_eq in E0. subst a. exists x. split; [reflexivity|]. split; [exact Hx|].
-    rewrite Z.gcd_0_l, Z.abs_eq in Hg by lia. rewrite <- Hg.
-    apply Zmod_divides in Hcb; [|lia]. destruct Hcb as [c Hc].
-    replace (x * v) with (b + (- c) * M) by lia. apply Z_mod_plus_full.
-  - assert (Ha0 : a <> 0) by (apply Z.eqb_neq; exact E0).
-    assert (Hapos : 0 < a) by lia.
-    pose proof (Z.div_mod b a Ha0) as Hdm. pose proof (Z.mod_pos_bound b a Hapos) as Hmod.
-    assert (Hk : 0 <= b / a) by (apply Z.div_pos; lia).
-    unfold div_s. rewrite E0. rewrite Z.quot_div_nonneg by lia.
-    set (k := b / a) in *.
-    assert (Hka : k * a <= b) by lia.
-    pose proof (abs_sub_opp x y k Hsign Hk) as Habs.
-    pose proof (sign_step x y k Hsign Hk) as G4.
-    destruct (step_arith a b (Z.abs x) (Z.abs y) k M Hapos ltac:(lia) Hk Hka
-                (Z.abs_nonneg x) (Z.abs_nonneg y) Hsum)
-      as (A1 & A2 & A3 & A4 & A5 & A6 & A7 & A8).
-    assert (Habsky : Z.abs (k * y) <= M) by (rewrite Z.abs_mul, (Z.abs_eq k) by lia; lia).
-    assert (Hkann : 0 <= k * a) by (apply Z.mul_nonneg_nonneg; lia).
-    unfold bind.
-    rewrite (chk_s32_some k) by lia.
-    rewrite (chk_s32_some (k * a)) by lia.
-    rewrite (chk_s32_some (b - k * a)) by lia.
-    rewrite (chk_s32_some (k * y)) by lia.
-    rewrite (chk_s32_some (x - k * y)) by lia.
-    cbn [inv_inv inv_mu]. split; [|lia].
-    assert (G5 : (b - k * a - (x - k * y) * v) mod M = 0).
-    { replace (b - k * a - (x - k * y) * v) with ((b - x * v) - k * (a - y * v)) by ring.
-      rewrite Zminus_mod, Zmult_mod, Hca, Hcb, Z.mul_0_r. reflexivity. }
-    assert (G7 : Z.gcd (b - k * a) a = Z.gcd v M).
-    { rewrite <- Hg. rewrite Z.gcd_comm.
-      replace (b - k * a) with (b + (- k) * a) by ring. apply Z.gcd_add_mult_diag_r. }
-    rewrite Habs.
-    repeat split; try assumption; try lia.
+  destruct s as [[[a b] x] y]. intros Hi. destruct (Z.eq_dec a 0) as [->|Ha0].
+  - destruct (inv_step_exit b x y Hi) as [-> Hp]. exact Hp.
+  - destruct (inv_step_shape a b x y Hi Ha0) as (-> & Hi' & Hlt & _).
+    split; [exact Hi'|]. cbn [inv_mu]. exact Hlt.
+Qed.
+
+(** second measure: the product a*b at least halves in every iteration, so the loop of
+    two 31-bit values makes at most 62 iterations before a = 0 *)
+Definition inv_mu2 (s : Z * Z * Z * Z) : Z :=
+  let '(a, b, _, _) := s in if a =? 0 then 0 else Z.log2 (a * b) + 1.
+
+Lemma inv_step_ok2 s : inv_inv s ->
+  match inv_step s with
+  | inl s' => inv_inv s' /\ 0 <= inv_mu2 s' < inv_mu2 s
+  | inr r => inv_post r
+  end.
+Proof.
+  destruct s as [[[a b] x] y]. intros Hi. destruct (Z.eq_dec a 0) as [->|Ha0].
+  - destruct (inv_step_exit b x y Hi) as [-> Hp]. exact Hp.
+  - destruct (inv_step_shape a b x y Hi Ha0) as (-> & Hi' & Hlt & Hhalf).
+    split; [exact Hi'|]. cbn [inv_mu2].
+    destruct Hi as (Hab & _).
+    replace (a =? 0) with false by (symmetry; apply Z.eqb_neq; exact Ha0).
+    pose proof (Z.log2_nonneg (a * b)) as Hl0.
+    destruct (b mod a =? 0) eqn:E; [lia|]. apply Z.eqb_neq in E.
+    set (r := b mod a) in *.
+    assert (Hra : 0 < r * a) by (apply Z.mul_pos_pos; lia).
+    assert (Hle : 2 * (r * a) <= a * b).
+    { replace (2 * (r * a)) with (a * (2 * r)) by ring. apply Z.mul_le_mono_nonneg_l; lia. }
+    pose proof (Z.log2_nonneg (r * a)) as Hl1.
+    pose proof (Z.log2_double (r * a) Hra) as Hd.
+    pose proof (Z.log2_le_mono _ _ Hle) as Hm. lia.
 Qed.
 End Inv.
 
@@ -142,6 +190,25 @@ Proof.
               (inv_step_ok M HM v) p (v, M, 0, 1)) as (r & Hr & (x & -> & Hx1 & Hx2)).
   - apply inv_init; assumption.
   - cbn [inv_mu]. lia.
+  - exists x. auto.
+Qed.
+
+(** ... and it ends within 64 iterations *)
+Lemma inv_loop_terminates_64 :
+  exists x, inv_loop M 64 v = inr (Some x) /\ Z.abs x <= M /\ (x * v) mod M = Z.gcd v M mod M.
+Proof.
+  rewrite inv_loop_start.
+  destruct (iter_pos_spec inv_step (inv_inv M v) (inv_post M v) inv_mu2
+              (inv_step_ok2 M HM v) 64%positive (v, M, 0, 1)) as (r & Hr & (x & -> & Hx1 & Hx2)).
+  - apply inv_init; assumption.
+  - cbn [inv_mu2]. destruct (v =? 0) eqn:E; [lia|]. apply Z.eqb_neq in E.
+    assert (Hpos : 0 < v * M) by (apply Z.mul_pos_pos; lia).
+    assert (Hlt : v * M < 2 ^ 62).
+    { apply Z.le_lt_trans with (2 ^ 31 * M).
+      - apply Z.mul_le_mono_nonneg_r; lia.
+      - change (2 ^ 62) with (2 ^ 31 * 2 ^ 31). apply Z.mul_lt_mono_pos_l; lia. }
+    pose proof (Z.log2_nonneg (v * M)) as Hl0.
+    apply Z.log2_lt_pow2 in Hlt; [|exact Hpos]. lia.
   - exists x. auto.
 Qed.
 
